@@ -11,9 +11,10 @@
      observation may be "did not terminate" (code 98) or the result on the acyclic unfolding
      ([parse_prog_once]) — termination is left open by C20;
    * a batch read returns a map: every key is a requested name carrying the value a single get_par of
-     that name returns, and every requested name is represented by a key equal to it up to case
-     (for names pairwise distinct up to case this is exactly {name: get_par(name)}; when the same
-     parameter is requested under two spellings the property does not say which spellings are keys);
+     that name returns, and every requested name is represented by a key that resolves to the same
+     register (over a one-to-one binding and names pairwise distinct up to case this is exactly
+     {name: get_par(name)}; when the same register is requested under two spellings / two aliases the
+     property does not say which of them are keys);
    * per call of an accessor: the SET of registers read and the SET of registers written on the ADwin
      (not the order or the grouping into driver calls), plus the register contents at the end;
    * a batch accessor that fails (unknown name, non-int for Par): the exception class only; the
@@ -126,7 +127,7 @@ Definition touch_eqb (a b : list call) : bool :=
 Definition read_dict_ok (b : list (str * desc)) (dv : dev) (ns : list str) (kv : list (str * value)) : bool :=
   forallb (fun e => existsb (str_eqb (fst e)) ns
                     && match snd (get_par ascii_lower b (fst e) dv) with ROk v => value_eqb v (snd e) | _ => false end) kv
-  && forallb (fun n => existsb (fun e => str_eqb (ascii_lower (fst e)) (ascii_lower n)) kv) ns.
+  && forallb (fun n => existsb (fun e => option_eqb desc_eqb (lookup_ci ascii_lower b (fst e)) (lookup_ci ascii_lower b n)) kv) ns.
 
 Definition is_err (x : dobs) : bool := match x with OValueError | OTypeError => true | _ => false end.
 Definition is_batch (o : dop) : bool := match o with DGetM _ | DSetM _ => true | _ => false end.
